@@ -190,16 +190,68 @@ class _Sub:
 RESUB_OFFSET = 1000
 
 
+class World:
+    """One virtual-time scheduler and the test sources on it. clock = "test": TestScheduler (float ticks) with the
+    library's ColdObservable / HotObservable; clock = "hist": HistoricalScheduler (aware datetimes / timedeltas,
+    1 virtual-time unit = 1 s) with the codec's logging sources."""
+
+    def __init__(self, clock: str):
+        from datetime import datetime, timedelta, timezone
+        from reactivex.scheduler import HistoricalScheduler
+        from reactivex.testing import TestScheduler
+        self.kind = clock
+        if clock == "hist":
+            self.epoch = datetime(2021, 3, 4, 5, 6, 7, tzinfo=timezone.utc)
+            self.s = HistoricalScheduler(self.epoch)
+            self.abs = lambda t: self.epoch + timedelta(seconds=t)
+            self.rel = lambda d: timedelta(seconds=d)
+            self.now = lambda: round((self.s.now - self.epoch).total_seconds())
+        else:
+            self.s = TestScheduler()
+            self.abs = lambda t: t
+            self.rel = lambda d: d
+            self.now = lambda: self.s.clock
+
+    def _notes(self, msgs):
+        from reactivex.notification import OnCompleted, OnError, OnNext
+        return [(t, x if k == "raw" else OnNext(x) if k == "N" else OnCompleted() if k == "C" else OnError(x)) for (t, k, x) in msgs]
+
+    def cold(self, msgs, sync0=False):
+        from reactivex.testing.recorded import Recorded
+        if self.kind == "test" and not sync0:
+            return self.s.create_cold_observable([Recorded(t, n) for t, n in self._notes(msgs)])
+        return make_log_cold(self.s, [(self.rel(t), t == 0, n) for t, n in self._notes(msgs)], sync0, self.now)
+
+    def hot(self, msgs):
+        from reactivex.testing.recorded import Recorded
+        if self.kind == "test":
+            return self.s.create_hot_observable([Recorded(t, n) for t, n in self._notes(msgs)])
+        return make_log_hot(self.s, [(self.abs(t), False, n) for t, n in self._notes(msgs)], self.now)
+
+    def at(self, t, fn):
+        self.s.schedule_absolute(self.abs(t), lambda *_: fn())
+
+    def run(self):
+        from reactivex.scheduler import VirtualTimeScheduler
+        VirtualTimeScheduler.start(self.s)
+
+
+def zero_time_complete(tl) -> bool:
+    return bool(tl) and tl[-1]["k"] == "C" and all(ev["t"] == 0 for ev in tl)
+
+
 def run_scenario(scn: Dict[str, Any], *, outer: str, profile: str, inner_first: bool = True, form: str = "pipe",
-                 salt: int = 0, resub: bool = False) -> Optional[Dict[str, Any]]:
+                 salt: int = 0, resub: bool = False, clock: str = "test") -> Optional[Dict[str, Any]]:
     """One real run. Returns None when the variant does not apply to the scenario.
     outer: "hot" | "cold" | "sync" - the kind of test source the outer timeline is played from.
+    form:  "pipe"; merge(sources...): "factory" = reactivex.merge(...); flat_map family: "const" = the mapper argument is
+           the inner observable itself (applies when the mapper table is constant), "iterable" = the mapper returns a
+           list (applies when every inner is its elements at relative time 0 followed by completion).
     resub: the same pipeline object is subscribed a first time at 200 and - long after that run is over - a second
-    time at 1200; the observation is the second subscriber's (all sources cold: it must see the same thing again)."""
+           time at 1200; the observation is the second subscriber's (all sources cold: it must see the same thing again).
+    clock: "test" (TestScheduler) | "hist" (HistoricalScheduler, datetime clock)."""
     import reactivex
     from reactivex import operators as ops
-    from reactivex.scheduler import VirtualTimeScheduler
-    from reactivex.testing import ReactiveTest, TestScheduler
 
     outer_kind = outer
     outer_hot = outer_kind == "hot"
@@ -211,64 +263,69 @@ def run_scenario(scn: Dict[str, Any], *, outer: str, profile: str, inner_first: 
     off = RESUB_OFFSET if resub else 0
     ni = len(tab)
     cod = Codec(tab, profile, salt)
-    ts = TestScheduler()
+    w = World(clock)
+    mapped = op in MAPPED or op in INDEXED
+    logged = True       # the inner sources log their subscriptions
+    if form == "iterable":
+        if not (mapped and fl == "cold" and all(zero_time_complete(tl) for tl in tab)):
+            return None
+        logged = False
+    if form == "const":
+        # every arrival is mapped to the same inner: flat_map(that_observable) must behave the same
+        toks = [ev["v"] for ev in outer if ev["k"] == "N"]
+        tgs = {fmap[(v - 1 + (i if op in INDEXED else 0)) % ni] for i, v in enumerate(toks)}
+        if not (op in ("flat_map", "flat_map_indexed") and len(tgs) == 1 and 0 not in tgs):
+            return None
+        const_target = next(iter(tgs))
 
     def inner_msgs(i: int, tl, absolute: bool):
         ms = []
         for j, ev in enumerate(tl, start=1):
             t = T(HOT_OFF + ev["t"]) if absolute else HALF * ev["t"]
-            if ev["k"] == "N":
-                ms.append(ReactiveTest.on_next(t, cod.elem[(i, j)]))
-            elif ev["k"] == "C":
-                ms.append(ReactiveTest.on_completed(t))
-            else:
-                ms.append(ReactiveTest.on_error(t, cod.inner_err[i]))
+            ms.append((t, ev["k"], cod.elem[(i, j)] if ev["k"] == "N" else cod.inner_err[i] if ev["k"] == "E" else None))
         return ms
 
     def make_inners():
         out = {}
         for i, tl in enumerate(tab, start=1):
-            if fl == "hot":
-                out[i] = ts.create_hot_observable(inner_msgs(i, tl, True))
-            elif fl == "sync":
-                out[i] = make_sync_cold(ts, inner_msgs(i, tl, False))
+            if form == "iterable":
+                out[i] = [cod.elem[(i, j)] for j, ev in enumerate(tl, start=1) if ev["k"] == "N"]
+            elif fl == "hot":
+                out[i] = w.hot(inner_msgs(i, tl, True))
             else:
-                out[i] = ts.create_cold_observable(inner_msgs(i, tl, False))
+                out[i] = w.cold(inner_msgs(i, tl, False), sync0=(fl == "sync"))
         return out
 
     inners: Dict[int, Any] = {}
     if inner_first:
         inners.update(make_inners())
-    mapped = op in MAPPED or op in INDEXED
     xs = None
     if op == "merge_srcs":
-        if outer_hot:
+        if outer_kind != "cold":
             return None  # there is no outer test source: the outer is from_iterable(sources)
         if not inner_first:
             inners.update(make_inners())
     else:
+        from reactivex.notification import OnNext
         ms = []
+        cells = []
         for ev in outer:
             t = T(ev["t"]) if outer_hot else HALF * ev["t"]
-            if ev["k"] == "N":
-                # unmapped operators get the inner sources themselves; late-created inners go through a proxy
-                val = cod.tok[ev["v"]] if mapped else _Late(inners, ev["v"])
-                ms.append(ReactiveTest.on_next(t, val))
-            elif ev["k"] == "C":
-                ms.append(ReactiveTest.on_completed(t))
+            if ev["k"] == "N" and mapped:
+                ms.append((t, "N", cod.tok[ev["v"]]))
+            elif ev["k"] == "N":
+                # unmapped operators get the inner sources themselves; when the inners are created after the outer
+                # source the notification's value is filled in once they exist
+                n = OnNext(inners.get(ev["v"]))
+                cells.append((n, ev["v"]))
+                ms.append((t, "raw", n))
             else:
-                ms.append(ReactiveTest.on_error(t, cod.outer_err))
-        if not mapped:
-            if not inner_first:
-                inners.update(make_inners())
-            # replace the proxies by the real inner sources now that they exist
-            for m in ms:
-                if isinstance(m.value.value if hasattr(m.value, "value") else None, _Late):
-                    m.value.value = inners[m.value.value.idx]
-        xs = (ts.create_hot_observable(ms) if outer_hot else make_sync_cold(ts, ms) if outer_kind == "sync"
-              else ts.create_cold_observable(ms))
-        if mapped and not inner_first:
+                ms.append((t, ev["k"], cod.outer_err if ev["k"] == "E" else None))
+        xs = w.hot(ms) if outer_hot else w.cold(ms, sync0=(outer_kind == "sync"))
+        if not inner_first:
             inners.update(make_inners())
+            for n, v in cells:
+                n.value = inners[v]
 
     calls: List[Any] = []
 
@@ -294,10 +351,16 @@ def run_scenario(scn: Dict[str, Any], *, outer: str, profile: str, inner_first: 
             if not srcs:
                 return None
             ys = srcs[0].pipe(ops.merge(*srcs[1:]))
-        else:
+        elif form == "factory":
             ys = reactivex.merge(*srcs)
+        else:
+            return None
     else:
-        if op == "merge_all":
+        if form == "const":
+            o = ops.flat_map(inners[const_target]) if op == "flat_map" else ops.flat_map_indexed(inners[const_target])
+        elif form not in ("pipe", "iterable"):
+            return None
+        elif op == "merge_all":
             o = ops.merge_all()
         elif op == "merge_mc":
             o = ops.merge(max_concurrent=mc)
@@ -319,31 +382,36 @@ def run_scenario(scn: Dict[str, Any], *, outer: str, profile: str, inner_first: 
             o = ops.exclusive()
         else:
             raise ValueError(op)
-        if form == "pipe":
-            ys = xs.pipe(o)
-        else:
-            return None
+        if form == "iterable" and op in ("concat_map", "switch_map", "switch_map_indexed", "flat_map_latest"):
+            # these take observables only; the list goes through from_iterable in the mapper
+            base, base_i = mapper, mapper_indexed
+            if op == "switch_map_indexed":
+                o = ops.switch_map_indexed(lambda x, i: reactivex.from_iterable(base_i(x, i)))
+            else:
+                o = getattr(ops, op)(lambda x: reactivex.from_iterable(base(x)))
+        ys = xs.pipe(o)
+    if scn.get("take"):
+        ys = ys.pipe(ops.take(scn["take"]))
 
     rec: List[Tuple[float, str, Any]] = []
     holder: Dict[str, Any] = {}
 
-    def subscribe(_s=None, _st=None):
-        holder["d"] = ys.subscribe(on_next=lambda v: rec.append((ts.clock, "N", v)),
-                                   on_error=lambda e: rec.append((ts.clock, "E", e)),
-                                   on_completed=lambda: rec.append((ts.clock, "C", None)), scheduler=ts)
+    def subscribe():
+        holder["d"] = ys.subscribe(on_next=lambda v: rec.append((w.now(), "N", v)),
+                                   on_error=lambda e: rec.append((w.now(), "E", e)),
+                                   on_completed=lambda: rec.append((w.now(), "C", None)), scheduler=w.s)
 
     if resub:
         first: Dict[str, Any] = {}
-        ts.schedule_absolute(SUB_AT, lambda *_: first.update(d=ys.subscribe(on_next=lambda v: None, on_error=lambda e: None,
-                                                                            scheduler=ts)))
+        w.at(SUB_AT, lambda: first.update(d=ys.subscribe(on_next=lambda v: None, on_error=lambda e: None, scheduler=w.s)))
         if dsp != NEVER:
-            ts.schedule_absolute(T(dsp), lambda *_: first["d"].dispose())
-    ts.schedule_absolute(SUB_AT + off, subscribe)
+            w.at(T(dsp), lambda: first["d"].dispose())
+    w.at(SUB_AT + off, subscribe)
     if dsp != NEVER:
-        ts.schedule_absolute(T(dsp) + off, lambda *_: holder["d"].dispose())
+        w.at(T(dsp) + off, lambda: holder["d"].dispose())
     escaped = None
     try:
-        VirtualTimeScheduler.start(ts)
+        w.run()
     except Exception as e:  # an exception that escaped into the scheduler / the emitter
         escaped = e
     out = []
@@ -356,16 +424,13 @@ def run_scenario(scn: Dict[str, Any], *, outer: str, profile: str, inner_first: 
             out.append([t, "E", cod.err_of(v)])
         else:
             out.append([t, "C", None])
-    subs = {str(i): [[s.subscribe - off, unshift(s.unsubscribe)] for s in inners[i].subscriptions if s.subscribe >= SUB_AT + off]
-            for i in sorted(inners)}
+    subs = None
+    if logged:
+        subs = {str(i): [[s.subscribe - off, unshift(s.unsubscribe)] for s in inners[i].subscriptions if s.subscribe >= SUB_AT + off]
+                for i in sorted(inners)}
     osub = None if xs is None else [[s.subscribe - off, unshift(s.unsubscribe)] for s in xs.subscriptions
                                     if s.subscribe >= SUB_AT + off]
     return {"out": out, "subs": subs, "osub": osub, "escaped": None if escaped is None else repr(escaped), "calls": calls}
-
-
-class _Late:
-    def __init__(self, table, idx):
-        self.table, self.idx = table, idx
 
 
 # ---- the model's observation in the same shape -------------------------------------------------------
@@ -399,7 +464,7 @@ def diff(exp: Dict[str, Any], got: Dict[str, Any]) -> Optional[str]:
         return "escaped"
     if not _eq_out(exp["out"], got["out"]):
         return "out"
-    if exp["subs"] != got["subs"]:
+    if got["subs"] is not None and exp["subs"] != got["subs"]:
         return "subs"
     if exp["osub"] is not None and exp["osub"] != got["osub"]:
         return "osub"
@@ -416,12 +481,29 @@ def witness(scn, exps, got) -> Dict[str, Any]:
     leaks = []
     for e in exps:
         if _eq_out(e["out"], got["out"]):
-            for i, lst in got["subs"].items():
+            for i, lst in (got["subs"] or {}).items():
                 for n, iv in enumerate(lst):
                     ev = e["subs"].get(i, [])
                     if n < len(ev) and ev[n][0] == iv[0] and iv[1] > ev[n][1]:
                         leaks.append(i)
     w["late_unsubscribe"] = bool(leaks)
+    # inner sources subscribed (and unsubscribed in the same instant) after the result had already ended: the real log is
+    # an allowed log plus entries [Tend, Tend], Tend = instant of the terminal notification
+    after = False
+    if got["out"] and got["out"][-1][1] != "N" and got["subs"] is not None:
+        tend = got["out"][-1][0]
+        for e in exps:
+            if not _eq_out(e["out"], got["out"]) or (e["osub"] is not None and e["osub"] != got["osub"]):
+                continue
+            extra = 0
+            ok = True
+            for i, lst in got["subs"].items():
+                ev = e["subs"].get(i, [])
+                if lst[:len(ev)] != ev or any(iv != [tend, tend] for iv in lst[len(ev):]):
+                    ok = False
+                extra += len(lst) - len(ev)
+            after = after or (ok and extra > 0)
+    w["subscribed_after_end"] = after
     got_k = [x[1] for x in got["out"]]
     w["observed_terminal"] = got_k[-1] if got_k and got_k[-1] != "N" else "none"
     w["expected_terminals"] = sorted({(e["out"][-1][1] if e["out"] and e["out"][-1][1] != "N" else "none") for e in exps})
@@ -444,14 +526,14 @@ def judge(scn: Dict[str, Any], allowed: List[Dict[str, Any]], variant: Dict[str,
                                                   ("subs" if "subs" in reasons else reasons[0]))
     rec = {"engine": "opsmerge", "op": scn["op"], "mc": scn["mc"], "fl": scn["fl"], "reason_kind": rk, "scn": scn,
            "expected": allowed, "expected_decoded": exps[:4], "observed": got, "variant": variant,
-           "has_fault": 0 in scn["fmap"], "disposed": scn["dsp"] != NEVER}
+           "has_fault": 0 in scn["fmap"], "disposed": scn["dsp"] != NEVER, "take": scn.get("take", 0)}
     rec.update(witness(scn, exps, got))
     return rec
 
 
 # ---- drivers shared by C11 / C12 -------------------------------------------------------------------
 BASE = dict(MCs={1, 2}, Tabs={"plain"}, Flavours={"cold"}, MaxOuter=3, OTimes={1, 2, 3}, OTermTimes={1, 2, 3, 5},
-            OTerms={"C", "E", "U"}, DspTicks=set(), Faults=False, FAll=False, RG=True, GenN=2, GenLen=2, GenTimes={0, 1},
+            OTerms={"C", "E", "U"}, DspTicks=set(), Takes=set(), Faults=False, FAll=False, RG=True, GenN=2, GenLen=2, GenTimes={0, 1},
             Lazy=False)
 
 
@@ -503,6 +585,13 @@ def variants_for(scn, profiles=("plain",)):
             vs.append(dict(outer=ok, profile=prof, inner_first=bool((s + n) % 2), form="pipe", salt=s % 7))
     if scn["fl"] != "hot" and s % 2 == 0:
         vs.append(dict(outer="cold", profile=profiles[s % len(profiles)], inner_first=True, form="pipe", salt=s % 3, resub=True))
+    if s % 3 == 0:   # the same on a datetime clock
+        vs.append(dict(outer=("cold" if zero or s % 2 else "hot"), profile=profiles[s % len(profiles)], inner_first=bool(s % 2),
+                       form="pipe", salt=s % 3, clock="hist"))
+    if scn["op"] in MAPPED or scn["op"] in INDEXED:
+        # other call forms of the flat_map family (run_scenario says "n/a" where they do not apply)
+        vs.append(dict(outer="cold", profile=profiles[s % len(profiles)], inner_first=True, form="iterable", salt=s % 3))
+        vs.append(dict(outer="hot", profile=profiles[s % len(profiles)], inner_first=True, form="const", salt=s % 3))
     return vs
 
 
